@@ -286,6 +286,12 @@ func (p *Path) visitInstr(fr *frame, instr ssa.Instruction) (ret bool) {
 		idx := fr.get(instr.Index).(*Term)
 		switch x := x.(type) {
 		case Slice:
+			if !idx.isConst && len(x) > 1 && onlyLoaded(instr) {
+				// read-only use through a symbolic index: defer the choice, the load merges the candidates
+				p.boundsOnly(fr, instr, idx, len(x))
+				fr.env[instr] = &SymPtr{elems: x, idx: idx, it: instr.Index.Type()}
+				break
+			}
 			i := p.boundsIndex(fr, instr, idx, instr.Index.Type(), len(x))
 			fr.env[instr] = Ptr(&x[i])
 		case Ptr:
